@@ -21,7 +21,7 @@ import z3
 
 from ..core import Eq, Fail, Note
 from .. import pat, ops, bv
-from ..kapi import get_alg, mv, coeffs, mv_eq_claims, eq_claims, kmap
+from ..kapi import get_alg, mv, coeffs, mv_eq_claims, eq_claims, kmap, twice_on_wrapper
 
 PROP = 'C03'
 LEVEL = 'translation_validation'
@@ -38,7 +38,7 @@ OUTSIDE = ['d > 5 for Engine A', 'blade indices >= 2^W for Engine B', 'floating-
 OPTS = {'rlimit': 80_000_000, 'canary_every': 20}
 SPECIAL_KINDS = ('bv',)
 
-NAMES = ['op', 'ip', 'lc', 'rc', 'sp', 'cp', 'acp']
+NAMES = ['cp', 'acp', 'op', 'ip', 'lc', 'rc', 'sp']
 GRADE_RULE = {
     'op': lambda r, s: r + s,
     'ip': lambda r, s: abs(r - s),
@@ -91,6 +91,19 @@ def cases(tier, seed):
         R = pat.RND(5, 16 if tier == 'quick' else 200, rng, max_len=7)
         for i in range(len(R) // 2):
             add(cfg, R[2 * i], R[2 * i + 1])
+    # d = 7, 8: lazily filled sign table -- a FRESH algebra per case (a shared one would be warmed up by earlier cases)
+    for cfg in [dict(p=7), dict(p=4, q=2, r=1)] + ([dict(p=5, q=2, r=1)] if tier == 'thorough' else []):
+        dd = sum(cfg.values())
+        R = pat.RND(dd, 12 if tier == 'quick' else 60, rng, max_len=5, min_len=1, order=list(range(2 ** dd)))
+        for i in range(len(R) // 2):
+            out.append(dict(kind='products', cfg=cfg, ka=list(R[2 * i]), kb=list(R[2 * i + 1]), defn=False, fresh=True))
+        out.append(dict(kind='products', cfg=cfg, ka=[1, 6], kb=[6, 1, 24], defn=False, fresh=True))
+    # wrapper slices: functions are resolved by name at call time (second pass after all are generated)
+    for cfg in (dict(p=2, wrapper='identity'), dict(p=1, q=1, wrapper='wraps'), dict(p=2, r=1, wrapper='identity'), dict(p=3, wrapper='wraps')):
+        dd = sum(v for k, v in cfg.items() if k in 'pqr')
+        P = pat.EXH(2) if dd == 2 else pat.RND(3, 40, rng, max_len=5)
+        for _ in range(40 if tier == 'quick' else 200):
+            add(cfg, rng.choice(P), rng.choice(P))
     # random custom bases
     for i in range(10 if tier == 'quick' else 80):
         d = rng.choice((2, 3, 3, 4))
@@ -104,7 +117,13 @@ def cases(tier, seed):
 
 
 def run_case(desc, V):
-    alg = get_alg(desc['cfg'])
+    if desc.get('fresh'):
+        from ..kapi import make_alg
+        return _body(desc, V, make_alg(desc['cfg']))
+    return twice_on_wrapper(desc['cfg'], lambda alg: _body(desc, V, alg))
+
+
+def _body(desc, V, alg):
     km = kmap(alg)
     a = mv(alg, V, 'a', desc['ka'])
     b = mv(alg, V, 'b', desc['kb'])
